@@ -86,9 +86,15 @@ func loadSpecDB() (*SpecDB, error) {
 		for k, s := range cf.Fns {
 			switch s.Kind {
 			case "ext":
+				if old, dup := db.ext[s.Key]; dup && old != s && specSig(old) != specSig(s) {
+					return nil, fmt.Errorf("%s: ext %s is declared with a different contract in %s", p, s.Key, db.extCF[s.Key].Pkg)
+				}
 				db.ext[s.Key] = s
 				db.extCF[s.Key] = cf
 			case "iface":
+				if old, dup := db.iface[s.Key]; dup && old != s && specSig(old) != specSig(s) {
+					return nil, fmt.Errorf("%s: iface %s is declared with a different contract in %s", p, s.Key, db.ifCF[s.Key].Pkg)
+				}
 				db.iface[s.Key] = s
 				db.ifCF[s.Key] = cf
 			}
